@@ -30,3 +30,19 @@ for d in sorted(glob.glob('/verif/seeded/*/')):
     json.dump(meta, open(d + 'meta.json', 'w'), indent=1)
     rows.append((sid, prop, verdict, classes, meta.get('summary') or ''))
     print(sid, verdict, classes, flush=True)
+
+# ---- SENSITIVITY.md from all meta.json files
+lines = ["# Sensitivity: independently seeded changes vs the checks", "",
+ "Each row is a change produced by a sub-agent that saw only the property text and a scratch worktree (never /verif),",
+ "re-verified with tools/verify_seed.sh (suite passes with it; demonstration fails with it and passes without it),",
+ "then run against the property's check on a scratch worktree of /repo HEAD + patch (tools/mutant.sh).", "",
+ "| seed | property | verdict (tier) | violation classes | what the change does | what it needs to manifest |", "|---|---|---|---|---|---|"]
+for d in sorted(glob.glob('/verif/seeded/*/')):
+    sid = os.path.basename(d.rstrip('/'))
+    m = json.load(open(d + 'meta.json'))
+    runs = m.get('checks_run', [])
+    v = '; '.join(f"{r['verdict']} ({r['tier']})" for r in runs) or 'not run'
+    cl = '; '.join(r.get('violation_classes', '') for r in runs)[:160]
+    def cell(x): return (x or '').replace('|', '/').replace('\n', ' ')[:420]
+    lines.append(f"| {sid} | {m['property']} | {v} | {cl} | {cell(m.get('summary'))} | {cell(m.get('needs_to_manifest'))} |")
+open('/verif/SENSITIVITY.md', 'w').write('\n'.join(lines) + '\n')
